@@ -9,8 +9,10 @@ package main
 import (
 	"fmt"
 	"go/ast"
+	"go/importer"
 	"go/token"
 	"go/types"
+	"sort"
 	"strings"
 )
 
@@ -97,6 +99,41 @@ func conds(p *pkg, fn string) []ast.Expr {
 			if x.Cond != nil {
 				out = append(out, x.Cond)
 			}
+		case *ast.SwitchStmt:
+			if x.Tag == nil {
+				for _, c := range x.Body.List {
+					out = append(out, c.(*ast.CaseClause).List...)
+				}
+			}
+		}
+		return true
+	})
+	return out
+}
+
+// compound assignments `v op= e` of fn in source order
+type compound struct {
+	op  token.Token
+	lhs ast.Expr
+	rhs ast.Expr
+}
+
+func compoundAssigns(p *pkg, fn, v string) []compound {
+	fd := findFunc(p, fn)
+	if fd == nil {
+		fail("function %s not found in %s", fn, p.dir)
+	}
+	var out []compound
+	ast.Inspect(fd.Body, func(n ast.Node) bool {
+		switch as := n.(type) {
+		case *ast.AssignStmt:
+			if len(as.Lhs) == 1 && len(as.Rhs) == 1 && as.Tok != token.DEFINE && as.Tok != token.ASSIGN && (&tr{p: p}).exprString(as.Lhs[0]) == v {
+				out = append(out, compound{as.Tok, as.Lhs[0], as.Rhs[0]})
+			}
+		case *ast.IncDecStmt:
+			if (&tr{p: p}).exprString(as.X) == v {
+				out = append(out, compound{as.Tok, as.X, nil})
+			}
 		}
 		return true
 	})
@@ -179,6 +216,33 @@ func transPicks(p *pkg, picks []pick, calls map[string]string) string {
 			es = returnsOf(p, pk.fn)
 		case "index":
 			es = indexArgs(p, pk.fn, pk.what)
+		case "update":
+			cs := compoundAssigns(p, pk.fn, pk.what)
+			if len(cs) != pk.of {
+				fail("%s: expected %d compound assignment(s) to %q, found %d (the function's pure computations changed shape)", pk.fn, pk.of, pk.what, len(cs))
+			}
+			c := cs[pk.k]
+			t := &tr{p: p, locals: map[string]bool{}, calls: calls, freeTy: map[string]ty{}, siteMod: true}
+			l, lt := t.expr(c.lhs)
+			r := "(1#" + fmt.Sprint(lt.w) + ")"
+			if c.rhs != nil {
+				r, _ = t.expr(c.rhs)
+			}
+			ops := map[token.Token]string{token.ADD_ASSIGN: "+", token.SUB_ASSIGN: "-", token.INC: "+", token.DEC: "-", token.MUL_ASSIGN: "*",
+				token.AND_ASSIGN: "&&&", token.OR_ASSIGN: "|||", token.XOR_ASSIGN: "^^^"}
+			op, ok := ops[c.op]
+			if !ok {
+				fail("%s: compound operator %s", pk.fn, c.op)
+			}
+			sort.Strings(t.free)
+			var ps []string
+			for _, fv := range t.free {
+				ps = append(ps, fmt.Sprintf("(%s : %s)", fv, t.freeTy[fv].lean()))
+			}
+			s += fmt.Sprintf("/-- %s: new value of %s after its compound assignment #%d (%s) -/\ndef %s %s : %s :=\n  (%s %s %s)\n\n", pk.fn, pk.what, pk.k,
+				p.fset.Position(c.lhs.Pos()), pk.lean, strings.Join(ps, " "), lt.lean(), l, op, r)
+			names = append(names, fmt.Sprintf("(\"%s\", [%s])", pk.lean, quoteAll(t.free)))
+			continue
 		default:
 			if strings.HasPrefix(pk.kind, "callarg") {
 				argNo := 0
@@ -231,3 +295,156 @@ func (t *tr) siteIndex(x *ast.IndexExpr) (string, ty) {
 }
 
 var _ = types.Typ
+
+func importerForSurvey() types.Importer { return importer.ForCompiler(fset, "source", nil) }
+
+// survey prints every condition, assignment and return of the named functions with its index and translation (or the
+// reason it is outside the subset): a development aid for choosing picks.
+func survey(dir string, fns []string) {
+	imp = importerForSurvey()
+	p := loadPkg(dir)
+	surveyMode = true
+	sortSiteParams = true
+	try := func(e ast.Expr) (res string) {
+		defer func() {
+			if r := recover(); r != nil {
+				res = fmt.Sprintf("-- NOT TRANSLATABLE: %v", r)
+			}
+		}()
+		t := &tr{p: p, locals: map[string]bool{}, calls: map[string]string{}, freeTy: map[string]ty{}, siteMod: true}
+		body, _ := t.expr(e)
+		return fmt.Sprintf("%v => %s", t.free, body)
+	}
+	for _, fn := range fns {
+		fd := findFunc(p, fn)
+		if fd == nil {
+			fmt.Println("no function", fn)
+			continue
+		}
+		fmt.Println("==", fn)
+		for i, c := range conds(p, fn) {
+			fmt.Printf("  cond %d @%s: %s\n", i, p.fset.Position(c.Pos()), try(c))
+		}
+		seen := map[string]int{}
+		ast.Inspect(fd.Body, func(n ast.Node) bool {
+			as, ok := n.(*ast.AssignStmt)
+			if !ok || len(as.Lhs) != len(as.Rhs) {
+				return true
+			}
+			for i, l := range as.Lhs {
+				v := (&tr{p: p}).exprString(l)
+				fmt.Printf("  assign %s #%d (%s) @%s: %s\n", v, seen[v], as.Tok, p.fset.Position(as.Pos()), try(as.Rhs[i]))
+				seen[v]++
+			}
+			return true
+		})
+		for i, r := range returnsOf(p, fn) {
+			fmt.Printf("  return %d: %s\n", i, try(r))
+		}
+	}
+}
+
+// autoSites translates EVERY pure computation of fn that lies in the subset: each branch / loop / case condition
+// (`<prefix>_c<k>`), each compound assignment or ++/-- as the new value of its target (`<prefix>_u<k>`), each plain
+// assignment (`<prefix>_a<k>`) and each single-value return (`<prefix>_r<k>`); k counts ALL sites of that kind in the
+// function, translatable or not, so that a definition keeps its name when a neighbour changes.  It returns the Lean
+// text, the (name, parameters) rows and the shape row (how many sites of each kind the function has).
+func autoSites(p *pkg, fn, prefix string, calls map[string]string) (string, []string, string) {
+	fd := findFunc(p, fn)
+	if fd == nil {
+		fail("function %s not found in %s", fn, p.dir)
+	}
+	sortSiteParams = true
+	opaqueBoolCalls = true
+	saved := surveyMode
+	surveyMode = true
+	defer func() { sortSiteParams = false; opaqueBoolCalls = false; surveyMode = saved }()
+	var out strings.Builder
+	var rows []string
+	emit := func(name, doc string, build func(t *tr) (string, ty)) {
+		defer func() { recover() }() // outside the subset: no definition (the shape row still counts the site)
+		t := &tr{p: p, locals: map[string]bool{}, calls: calls, freeTy: map[string]ty{}, siteMod: true}
+		body, rt := build(t)
+		sort.Strings(t.free)
+		var ps []string
+		for _, fv := range t.free {
+			ps = append(ps, fmt.Sprintf("(%s : %s)", fv, t.freeTy[fv].lean()))
+		}
+		fmt.Fprintf(&out, "/-- %s -/\ndef %s %s : %s :=\n  %s\n\n", doc, name, strings.Join(ps, " "), rt.lean(), body)
+		rows = append(rows, fmt.Sprintf("(\"%s\", [%s])", name, quoteAll(t.free)))
+	}
+	cs := conds(p, fn)
+	for k, c := range cs {
+		c := c
+		emit(fmt.Sprintf("%s_c%d", prefix, k), fmt.Sprintf("%s: condition #%d (%s)", fn, k, p.fset.Position(c.Pos())), func(t *tr) (string, ty) { return t.expr(c) })
+	}
+	nu, na := 0, 0
+	ops := map[token.Token]string{token.ADD_ASSIGN: "+", token.SUB_ASSIGN: "-", token.INC: "+", token.DEC: "-", token.MUL_ASSIGN: "*",
+		token.AND_ASSIGN: "&&&", token.OR_ASSIGN: "|||", token.XOR_ASSIGN: "^^^", token.SHL_ASSIGN: "<<<", token.SHR_ASSIGN: ">>>", token.AND_NOT_ASSIGN: "&^"}
+	ast.Inspect(fd.Body, func(n ast.Node) bool {
+		switch as := n.(type) {
+		case *ast.IncDecStmt:
+			k := nu
+			nu++
+			emit(fmt.Sprintf("%s_u%d", prefix, k), fmt.Sprintf("%s: %s after %s (%s)", fn, (&tr{p: p}).exprString(as.X), as.Tok, p.fset.Position(as.Pos())), func(t *tr) (string, ty) {
+				l, lt := t.expr(as.X)
+				return fmt.Sprintf("(%s %s (1#%d))", l, ops[as.Tok], lt.w), lt
+			})
+		case *ast.AssignStmt:
+			if len(as.Lhs) != len(as.Rhs) {
+				return true
+			}
+			for i := range as.Lhs {
+				i := i
+				target := (&tr{p: p}).exprString(as.Lhs[i])
+				if as.Tok == token.DEFINE || as.Tok == token.ASSIGN {
+					k := na
+					na++
+					emit(fmt.Sprintf("%s_a%d", prefix, k), fmt.Sprintf("%s: value assigned to %s (%s)", fn, target, p.fset.Position(as.Pos())), func(t *tr) (string, ty) { return t.expr(as.Rhs[i]) })
+				} else {
+					k := nu
+					nu++
+					emit(fmt.Sprintf("%s_u%d", prefix, k), fmt.Sprintf("%s: %s after %s (%s)", fn, target, as.Tok, p.fset.Position(as.Pos())), func(t *tr) (string, ty) {
+						op, ok := ops[as.Tok]
+						if !ok {
+							fail("operator %s", as.Tok)
+						}
+						l, lt := t.expr(as.Lhs[i])
+						r, _ := t.expr(as.Rhs[i])
+						if as.Tok == token.SHL_ASSIGN || as.Tok == token.SHR_ASSIGN {
+							r = t.shiftCount(as.Rhs[i])
+						}
+						if op == "&^" {
+							return fmt.Sprintf("(%s &&& ~~~%s)", l, r), lt
+						}
+						return fmt.Sprintf("(%s %s %s)", l, op, r), lt
+					})
+				}
+			}
+		}
+		return true
+	})
+	rs := returnsOf(p, fn)
+	for k, r := range rs {
+		r := r
+		emit(fmt.Sprintf("%s_r%d", prefix, k), fmt.Sprintf("%s: returned value #%d (%s)", fn, k, p.fset.Position(r.Pos())), func(t *tr) (string, ty) { return t.expr(r) })
+	}
+	shape := fmt.Sprintf("(\"%s\", [%d, %d, %d, %d])", prefix, len(cs), nu, na, len(rs))
+	return out.String(), rows, shape
+}
+
+// autoModule writes Gen/<mod>.lean with the sites of all listed functions (fn -> prefix).
+func autoModule(out, mod string, p *pkg, fns [][2]string, calls map[string]string, preamble string, imports ...string) {
+	s := header(mod, imports...) + preamble
+	var rows, shapes []string
+	for _, f := range fns {
+		txt, r, sh := autoSites(p, f[0], f[1], calls)
+		s += txt
+		rows = append(rows, r...)
+		shapes = append(shapes, sh)
+	}
+	s += "/-- generated definitions and the identifiers each one mentions, in parameter order -/\ndef siteParams : List (String × List String) := [" + strings.Join(rows, ",\n  ") + "]\n\n"
+	s += "/-- per function: number of conditions, compound assignments, plain assignments, single-value returns in the source -/\ndef shape : List (String × List Nat) := [" + strings.Join(shapes, ",\n  ") + "]\n"
+	s += footer(mod)
+	write(out, mod, s)
+}
